@@ -12,7 +12,8 @@ logger, traceback text included, and the record of a PASS command is `<verb> ` f
 Scope (see Properties/C20.lean): `verb<SP>password` with verb.lower() == "pass", no LF inside the password,
 line decodable and shorter than the 64 KiB StreamReader limit.  TAB / NBSP separators and a leading blank
 make an *unknown verb* that is echoed in clear (counted as `noted_out_of_scope_leak`, not a failure).
-A password containing LF sent by `Client.login` leaks its tail: signature C20:lf-password (known finding).
+A password containing CR/LF is refused by the client (repaired in /repo d8526e4); if its tail ever shows up in a
+record again the signature is C20:lf-password (a fixed finding: reported as a violation).
 """
 import asyncio
 import logging
@@ -39,7 +40,7 @@ EXPLANATION = (
 ASSUMPTIONS = [
     "login means verb<SP>password with verb.lower() == 'pass'; 'PASS<TAB>pw', 'PASS<NBSP>pw', '<SP>PASS pw' are unknown "
     "verbs echoed in clear by the command record and the 502 reply (noted, not claimed)",
-    "the password contains no LF (otherwise Client.login leaks the tail: known finding C20:lf-password)",
+    "a password with CR/LF is refused by the client before anything is logged or sent (newline_password_logs_nothing)",
     "the line decodes in the server's encoding (a UnicodeDecodeError traceback names one byte value and its position) "
     "and is shorter than the 64 KiB StreamReader limit",
     "user manager = MemoryUserManager without connection limits; other managers must not log in authenticate/get_user",
@@ -418,7 +419,8 @@ def function_line(j):
 
 def function_impl_canon(j, g):
     if g[0] == "EXC":
-        return "EXC:" + g[1]
+        # an exception raised AFTER something was logged is not the same outcome as one raised before
+        return "EXC:" + g[1] + ("+records=%d" % len(g[2]) if g[2] else "")
     recs = g[1]
     if j[0] == "parse":
         if len(recs) != 1:
